@@ -133,7 +133,8 @@ def check(img, inp, scratch, limit, trace):
         return 'fills: hexsim threw %s' % first['error'], ref
     if not cut:
         if (first['rv'] & 0xFFFFFFFF) != ref['exit'] or first['consumed'] != ref['consumed'] or first['still_running']:
-            return 'zero: run() returns %d (consumed %d), the reference from zeroed memory gives %d (consumed %d)' % (first['rv'], first['consumed'], ref['exit'], ref['consumed']), ref
+            return 'zero: run() returns %d (consumed %d, %s), the reference from zeroed memory exits with %d (consumed %d) within the same limit (trace=%s, limit=%s)' % (
+                first['rv'], first['consumed'], 'still running' if first['still_running'] else 'finished', ref['exit'], ref['consumed'], trace, limit), ref
         if not trace and first['out'] != ref['out']:
             return 'zero: output %s, the reference from zeroed memory prints %s' % (first['out'][:40], ref['out'][:40]), ref
         if first['fileout'] != ref['fileout']:
